@@ -109,3 +109,5 @@ def run(F, rep, tier):
     rep.analysed = {"pattern_functions": len(pats)}
     from rules.loopshape import c16_loop_carried_args
     c16_loop_carried_args(F, rep)
+    from rules.loopshape import c16_pattern_value_pairing
+    c16_pattern_value_pairing(F, rep)
